@@ -221,9 +221,15 @@ pub fn eval_session_check(check: &str, case: &Case, replies: &[String]) -> Optio
             let mut drop = String::new();
             let mut ignore: Vec<usize> = vec![];
             let mut prefix = false;
+            let mut noreply = false;
+            let mut errline = false;
             for r in rest {
                 if *r == "prefix" {
                     prefix = true;
+                } else if *r == "noreply" {
+                    noreply = true;
+                } else if *r == "errline" {
+                    errline = true;
                 } else if let Some(d) = r.strip_prefix("drop=") {
                     drop = d.to_string();
                 } else if let Some(ig) = r.strip_prefix("ignore=") {
@@ -232,6 +238,24 @@ pub fn eval_session_check(check: &str, case: &Case, replies: &[String]) -> Optio
             }
             let mut ta = transcript(case, replies, a1, a2, &drop, &ignore);
             let mut tb = transcript(case, replies, b1, b2, &drop, &ignore);
+            if errline {
+                // compare errors by kind and line, not by token index
+                let strip = |e: &mut String| {
+                    if e.starts_with("E:") {
+                        if let Some(i) = e.rfind(':') {
+                            if e[..i].contains('@') {
+                                e.truncate(i);
+                            }
+                        }
+                    }
+                };
+                ta.iter_mut().for_each(strip);
+                tb.iter_mut().for_each(strip);
+            }
+            if noreply {
+                ta.retain(|e| !e.starts_with('?'));
+                tb.retain(|e| !e.starts_with('?'));
+            }
             if prefix {
                 let n = ta.len().min(tb.len());
                 // only when a run did not end on its own (still has a pending breakpoint) may it be shorter
